@@ -28,7 +28,8 @@ EXPLANATION = ('Codec kernels proved for all inputs: each iteration of runlength
                'write->read stand-in on the sample BSP.')
 TRUSTED = ['bytes.index summary (least index)', 'struct.pack/unpack are mutually inverse per format code',
            'lzma module (payload compression)']
-UNVERIFIED = ['cross-referenced lump writers beyond the bounded family', 'float32 rounding of coordinates']
+UNVERIFIED = ['cross-referenced lump writers beyond the bounded family', 'float32 rounding of coordinates',
+              'face lumps (LDR / HDR / original): the sample map has no faces, the bounded tier writes three hand-built ones']
 TIMEOUT_MS = {'quick': 60000, 'thorough': 240000}
 
 
